@@ -12,7 +12,7 @@ CLAIMS = {
          "durability semantics are a model of the Directory contract (bytes durable after terminate, directory entries after sync_directory, atomic_write = synced temp file + rename); that MmapDirectory implements it is checked at the system-call level by sub mmap_syscalls on generated programs; not an executed power cut; crash points are storage-operation boundaries; schedules of background threads are those the OS produced in the single run of each history",
          "DESIGN.md §3 C01"),
  "C02": ("exploration",
-         "model-based stateful testing: generated operation histories vs a pure sequential model (proptest), plus concurrent producers with per-producer sequential replay",
+         "model-based stateful testing: generated operation histories vs a pure sequential model (proptest), plus concurrent producers with per-producer sequential replay (disjoint keys) and a linearizability check on a logical clock (shared keys)",
          "Generated histories over the full writer API and configuration space are checked against a sequential model after every commit / abort / rollback / merge / reopen, including opstamp laws; concurrent producers are checked by per-producer sequential replay and opstamp-range disjointness.",
          "thread interleavings are sampled (steered by the flush-every-N and pause-point hooks), never enumerated; document shapes are small (uid, group, 0-4 words, a number)",
          "DESIGN.md §3 C02"),
